@@ -324,6 +324,8 @@ def aten_getitem(interp, t: ATen, idx):
             r.intval = U("item_i", IntS, r.term)
         return r
     if isinstance(idx, ATen):  # index tensor: x[order]
+        if idx.boolean:
+            raise Unsupported("boolean-mask indexing (the result's shape depends on the data)")
         r = mk("take", [t, idx], idx.shape_l + t.shape_l[1:], t.dtype, t.kind)
         return r
     if isinstance(idx, V.Slice):
